@@ -103,6 +103,12 @@ EXH_ALPHABET4 = ['R 1', 'L e0 D0', 'L e0 F0 e1 S1', 'L i0', 'L i0 i1', 'X 0 2', 
 EXH_ALPHABET3 = ['L e0 F0', 'L e1 S1 e0 B0', 'L i1 i0', 'L i0', 'X 0 2', 'R 1', 'K 0 i', 'K 2 i', 'K 2 n', 'K 3 g']
 
 
+# round 3: ONE name defined in every way a name can be defined (small / big function, data, section, proto, external
+# address, resolver answer for an importer), permission switched on and off: the redefinition rule is about the
+# whole history of the name ("a second exported function"), not about what the table of globals holds at the moment
+EXH_ALPHABET5 = ['L e0 F0', 'L e0 B0', 'L e0 D0', 'L e0 S0', 'L e0 P0', 'X 0 1', 'L i0', 'K 1 i', 'K 0 i', 'R 1', 'R 0']
+
+
 def exhaustive(maxlen, alphabet=None):
     out = []
     alphabet = alphabet or EXH_ALPHABET
@@ -344,13 +350,13 @@ def run(chk):
         hs += [l.strip() for l in open(corpus) if l.strip() and not l.startswith('#')]
     ncorpus = len(hs)
     ex = (exhaustive(4 if quick else 6) + exhaustive(3 if quick else 5, EXH_ALPHABET2)
-          + exhaustive(4 if quick else 5, EXH_ALPHABET3))
+          + exhaustive(4 if quick else 5, EXH_ALPHABET3) + exhaustive(4 if quick else 5, EXH_ALPHABET5))
     if QUIET['ok']:
         ex += [h for h in exhaustive(5 if quick else 6, EXH_ALPHABET4) if 'q' in h and h.startswith('R 1')]
     rng = chk.rng('hist')
     if quick:  # a seeded sample of the length-5/6 part of the exhaustive space
         for _ in range(12000):
-            t = [rng.choice(rng.choice([EXH_ALPHABET, EXH_ALPHABET2, EXH_ALPHABET3])) for _ in range(rng.choice([5, 6, 7]))]
+            t = [rng.choice(rng.choice([EXH_ALPHABET, EXH_ALPHABET2, EXH_ALPHABET3, EXH_ALPHABET5])) for _ in range(rng.choice([5, 6, 7]))]
             t[-1] = rng.choice(['K 0 i', 'K 3 i', 'K 3 g', 'L i0 i1', 'L e0 F0'])
             ex.append(' ; '.join(t))
     hs += ex
@@ -373,7 +379,8 @@ def run(chk):
                       'so far plus the value obtained by calling/reading through each import; non-trivial = has a link '
                       'and >= 3 ops; exhaustive part = all histories over %d fixed ops up to length %d and over %d other ops '
                       'up to length %d and over %d more (rejected loads, failed links, retries, NULL-interface links) up to '
-                      'length %d; a history GOES ON after a failed link and - when fixes/C13-1.patch is in - after a rejected '
+                      'length %d and over 11 ops defining ONE name in every way (functions, data, section, proto, external, resolver '
+                      'answer) up to the same length; a history GOES ON after a failed link and - when fixes/C13-1.patch is in - after a rejected '
                       'load' % (len(EXH_ALPHABET), 4 if quick else 6, len(EXH_ALPHABET2), 3 if quick else 5,
                                 len(EXH_ALPHABET3), 4 if quick else 5))
     for h in hs[ncorpus + len(ex):][:4]:
